@@ -20,6 +20,7 @@
 package alg
 
 import (
+	"math"
 	"runtime"
 	"strconv"
 	"unsafe"
@@ -156,6 +157,10 @@ func HtmlEscape(dst []byte, src []byte) []byte {
 }
 
 func F64toa(buf []byte, v float64) []byte {
+	// NOTICE: -0.0 is printed as `-0`, as the JIT encoder and encoding/json do
+	if v == 0 && math.Signbit(v) {
+		return append(buf, '-', '0')
+	}
 	if v == 0 {
 		return append(buf, '0')
 	}
@@ -169,6 +174,9 @@ func F64toa(buf []byte, v float64) []byte {
 }
 
 func F32toa(buf []byte, v float32) []byte {
+	if v == 0 && math.Signbit(float64(v)) {
+		return append(buf, '-', '0')
+	}
 	if v == 0 {
 		return append(buf, '0')
 	}
